@@ -1160,6 +1160,11 @@ def gen_cases(rng, tier, names):
             for uc in (None, ua, ub):
                 for op in ('stack', 'from_scalars'):
                     obj_cases.append({'kind': 'O', 'op': op, 'ua': ua, 'ub': ub, 'uc': uc})
+            # components WITHOUT units in front of or between the dimensioned ones (seeded change C12-C: each
+            # component compared with the first instead of with the units found so far)
+            for op in ('stack', 'from_scalars'):
+                obj_cases.append({'kind': 'O', 'op': op, 'ua': None, 'ub': ua, 'uc': ub})
+                obj_cases.append({'kind': 'O', 'op': op, 'ua': ua, 'ub': None, 'uc': ub})
         for p2 in POWERS2:
             obj_cases.append({'kind': 'O', 'op': 'pow', 'cls': 'Scalar', 'ua': ua, 'p2': p2})
         for how in ('array_exponent', 'fraction'):
